@@ -3,6 +3,7 @@
    REGENERATED from /repo on every run: Gen/Gen_Comparators.v, Gen/Gen_MapRange.v) and followed by
    Print Assumptions. *)
 From Coq Require Import Sorting.Permutation Floats.
+From PV Require Import M_Glue08 L_Glue08 M_Config Gen.Gen_ConfigTable.
 From PV Require Import M_Order S_Order L_Order L_Sprint S_MapRange L_MapRange Gen.Gen_Comparators Gen.Gen_MapRange.
 Open Scope string_scope.
 Open Scope Z_scope.
@@ -307,3 +308,41 @@ Print Assumptions encode_label_order_deterministic.
 Example hypotheses_satisfiable :
   in_F8 [dummy_node] = false /\ in_F19 [dummy_node] = false /\ in_F9 [dummy_edge] = false.
 Proof. vm_compute. repeat split; reflexivity. Qed.
+
+(* ---------------- end-to-end layer: the glue between the user's input and the report functions -------- *)
+
+(* installConfigFlags collects the flags of a multi-choice group by ranging over a map; the outcome
+   (default / value / "conflicting options") is a function of the SET of flags *)
+Theorem choice_resolution_order_insensitive : forall s s' : list string,
+  Permutation s s' -> resolve_choice s = resolve_choice s'.
+Proof. exact resolve_choice_perm_lemma. Qed.
+Print Assumptions choice_resolution_order_insensitive.
+
+(* every pair of flags of one group (groups regenerated from config.go) is rejected, in both orders *)
+Theorem conflicting_choice_flags_rejected :
+  forallb (fun f => forallb (fun c1 => forallb (fun c2 =>
+     String.eqb c1 c2 || negb (cli_accepts ["-top"; "-" ++ c1; "-" ++ c2; "-output=rep"]%string))
+     (f_choices f)) (f_choices f)) config_fields = true.
+Proof. vm_compute. reflexivity. Qed.
+Print Assumptions conflicting_choice_flags_rejected.
+
+(* the lenient rule "the last flag that departs from the default wins" would depend on the order *)
+Theorem lenient_choice_resolution_refuted : exists default s s',
+  Permutation s s' /\ resolve_lenient default s <> resolve_lenient default s'.
+Proof.
+  exists ""%string, ["functions"; "lines"]%string, ["lines"; "functions"]%string.
+  split; [apply perm_swap | exact resolve_lenient_order_sensitive_witness].
+Qed.
+Print Assumptions lenient_choice_resolution_refuted.
+
+(* a command repeated in a session with no option assignment in between issues the same request
+   (same command, same options, the pristine profile), hence produces the same bytes whatever
+   deterministic function of the request renders them *)
+Theorem session_repeat_same_output : forall (B : Type) (render : string * list string -> B) c1 c2 mid rest hist,
+  is_assignment c1 = false -> is_assignment c2 = false ->
+  forallb (fun l => negb (is_assignment l)) mid = true ->
+  strip_redirect c1 = strip_redirect c2 ->
+  let outs := map (option_map render) (session_requests (c1 :: mid ++ c2 :: rest) hist) in
+  nth (S (List.length mid)) outs None = nth 0 outs None.
+Proof. exact (@session_repeat_same_output_lemma). Qed.
+Print Assumptions session_repeat_same_output.
